@@ -421,6 +421,8 @@ func main() {
 	solver := flag.String("solver", "z3", "z3 | z3new | cvc5")
 	timeoutMs := flag.Int("qtimeout", 60000, "per-query timeout (ms)")
 	logF := flag.String("smtlog", "", "write full SMT log of worker 0 here")
+	xdir := flag.String("xdir", "", "dump every -xevery-th solver query here for cross-solver checking")
+	xevery := flag.Int("xevery", 50, "sampling stride for -xdir")
 	patterns := flag.String("patterns", "./src,./src/algo,./src/util", "package patterns")
 	flag.Parse()
 	if os.Getenv("SYMGO_DEBUG") != "" {
@@ -521,6 +523,7 @@ func main() {
 				fatal(err)
 			}
 			defer w.S.Close()
+			w.S.XDir, w.S.XEvery, w.S.xid = *xdir, *xevery, fmt.Sprint(i)
 			for {
 				it, ok := q.pop()
 				if !ok {
